@@ -53,13 +53,18 @@ def run(ctx, only_cases=None):
         cases = [gen_case(ctx.rng, ctx.rng.choice([2, 3, 4, 4])) for _ in range(5000 if thorough else 400)]
         cases += exhaustive_cases(ctx.rng) if thorough else exhaustive_cases(ctx.rng)[::4]
         cases += [{"mode": "node", "n": n} for n in ([2, 8, 32, 64] * (20 if thorough else 3))]
+        # the non-atomic fallback inside ONE generator instance (store without SetNX): all 2-caller schedules of length 4
+        cases += [{"mode": "fallback", "n": 2, "sched": list(s)} for s in itertools.product([0, 1], repeat=4)]
+        cases += [{"mode": "fallback", "n": 3, "sched": [ctx.rng.randrange(3) for _ in range(8)]} for _ in range(40 if thorough else 8)]
+        cases += [{"mode": "ttl"}]
     outs = vlib.run_harness(binary, cases, timeout=1500)
     nfail = 0
     for c, o in zip(cases, outs):
         if not o["prop_ok"]:
             nfail += 1
             if nfail <= 3:
-                kind = "node-id-duplicate" if c["mode"] == "node" else ("leak" if "marker" in o["prop_msg"] else "duplicate-live-id")
+                kind = {"node": "node-id-duplicate", "fallback": "fallback-duplicate", "ttl": "marker-lifetime"}.get(
+                    c["mode"], "leak" if "marker" in o["prop_msg"] else "duplicate-live-id")
                 ctx.violation(kind, "real idgen/node allocator: " + o["prop_msg"], {"case": c, "observed": o})
     sc = [(c, o) for c, o in zip(cases, outs) if c["mode"] == "sched"]
     terms = [case_value(c, o) for c, o in sc]
